@@ -1,5 +1,6 @@
 import PytezosModel.Proofs.InterpStack
 import PytezosModel.Proofs.InterpComb
+import PytezosModel.Proofs.InterpArith
 import PytezosModel.Michelson.Interp.Spec
 /-! Instructions without sub-programs: the mirror's pop/push sequences against the reference rules. -/
 namespace Interp
@@ -69,6 +70,9 @@ theorem bytesVals_eq : ∀ xs, (Impl.bytesVals xs).map List.flatten = Spec.bytes
 @[simp] theorem rbind_ok {α β : Type} (a : α) (f : α → Res β) : (Res.ok a).bind f = f a := rfl
 @[simp] theorem rbind_failed {α β : Type} (v : Val) (f : α → Res β) : (Res.failed v : Res α).bind f = .failed v := rfl
 @[simp] theorem rbind_err {α β : Type} (f : α → Res β) : (Res.err : Res α).bind f = .err := rfl
+
+theorem bind_ne_err_step {α β : Type} {r : Res α} {f : α → Res β} (h : r.bind f ≠ .err) : r ≠ .err := by
+  intro e; subst e; exact h rfl
 
 end Interp
 
@@ -259,6 +263,119 @@ theorem step_UPDATEN (n : Nat) (hr : Spec.step env (.UPDATEN n) st ≠ .err) :
     · obtain ⟨⟨a, b, rfl⟩, h2⟩ := updateComb_refines n e v r (by omega) hq
       simp [Impl.step, hn, h2]
 
+/-- instructions of the form `a, b = pop2(); res = f(a, b); push(res)` -/
+theorem step_binop (i : Instr) (f g : Val → Val → Res Val)
+    (hs : ∀ a b st, Spec.step env i (a :: b :: st) = (f a b).bind fun r => .ok (r :: st))
+    (hs0 : Spec.step env i [] = .err) (hs1 : ∀ a, Spec.step env i [a] = .err)
+    (hi : ∀ s, Impl.step env i s = (do let (a, b, s) ← s.pop2; let r ← g a b; pure (s.push r)))
+    (hfg : ∀ a b, f a b ≠ .err → g a b = f a b)
+    (hr : Spec.step env i st ≠ .err) :
+    Impl.step env i (stk pre st) = (Spec.step env i st).map' (stk pre) := by
+  rcases st with _ | ⟨a, _ | ⟨b, st⟩⟩
+  · exact absurd hs0 hr
+  · exact absurd (hs1 a) hr
+  rw [hs] at hr ⊢
+  have h1 := bind_ne_err_step hr
+  rw [hi, pop2_mk_cons]
+  simp only [Res.bind_ok, hfg a b h1]
+  cases hq : f a b with
+  | err => exact absurd hq h1
+  | failed v => simp
+  | ok r => simp
+
+theorem execAnd_eq (a b : Val) (h : Spec.andV a b ≠ .err) : Impl.execAnd a b = Spec.andV a b := by
+  unfold Spec.andV at h ⊢
+  split at h
+  · rfl
+  · rename_i x y
+    by_cases hc : 0 ≤ x ∧ 0 ≤ y
+    · simp [Impl.execAnd, hc, pyAnd_nat x y hc.1 hc.2, natFromValue_ofNat]
+    · simp [hc] at h
+  · rename_i x y
+    by_cases hc : 0 ≤ y
+    · simp [Impl.execAnd, hc, pyAnd_int_nat x y hc, natFromValue_ofNat]
+    · simp [hc] at h
+  · rename_i x y
+    by_cases hc : 0 ≤ x
+    · simp [Impl.execAnd, hc, pyAnd_nat_int x y hc, natFromValue_ofNat]
+    · simp [hc] at h
+  · exact absurd rfl h
+
+theorem execOr_eq (a b : Val) (h : Spec.orV a b ≠ .err) : Impl.execOr a b = Spec.orV a b := by
+  unfold Spec.orV at h ⊢
+  split at h
+  · rfl
+  · rename_i x y
+    by_cases hc : 0 ≤ x ∧ 0 ≤ y
+    · simp [Impl.execOr, hc, pyOr_nat x y hc.1 hc.2, natFromValue_ofNat]
+    · simp [hc] at h
+  · exact absurd rfl h
+
+theorem execXor_eq (a b : Val) (h : Spec.xorV a b ≠ .err) : Impl.execXor a b = Spec.xorV a b := by
+  unfold Spec.xorV at h ⊢
+  split at h
+  · cases ‹Bool› <;> cases ‹Bool› <;> rfl
+  · rename_i x y
+    by_cases hc : 0 ≤ x ∧ 0 ≤ y
+    · simp [Impl.execXor, hc, pyXor_nat x y hc.1 hc.2, natFromValue_ofNat]
+    · simp [hc] at h
+  · exact absurd rfl h
+
+theorem execEdiv_eq (a b : Val) (h : Spec.edivV a b ≠ .err) : Impl.execEdiv a b = Spec.edivV a b := by
+  unfold Spec.edivV at h ⊢
+  split at h
+  · rename_i ta x tb y
+    simp only [Impl.execEdiv, edivTy_eq]
+    cases ht : Spec.edivTy ta tb with
+    | none => simp [ht] at h
+    | some p =>
+      obtain ⟨qt, rt⟩ := p
+      simp only [ht] at h ⊢
+      by_cases hy : y = 0
+      · simp [hy]
+      · simp only [hy, if_false, pyEdiv_eq x y hy, numFromValue_eq] at h ⊢
+        cases hq : Spec.numOk qt (x / y) with
+        | err => simp [hq] at h
+        | failed v => simp
+        | ok q =>
+          simp only [hq, rbind_ok, Res.bind_ok] at h ⊢
+          cases hq2 : Spec.numOk rt (x % y) with
+          | err => simp [hq2] at h
+          | failed v => simp
+          | ok r => simp [Impl.fromComb]
+  · exact absurd rfl h
+
+theorem execLsl_eq (a b : Val) (h : Spec.lslV a b ≠ .err) :
+    Impl.execShift (fun x n => x <<< n) a b = Spec.lslV a b := by
+  unfold Spec.lslV at h ⊢
+  split at h
+  · rename_i x n
+    by_cases hc : 0 ≤ n ∧ n ≤ 256
+    · simp only [hc, and_self, if_true]; exact execShift_lsl x n hc
+    · simp [hc] at h
+  · exact absurd rfl h
+
+theorem execLsr_eq (a b : Val) (h : Spec.lsrV a b ≠ .err) :
+    Impl.execShift (fun x n => x >>> n) a b = Spec.lsrV a b := by
+  unfold Spec.lsrV at h ⊢
+  split at h
+  · rename_i x n
+    by_cases hc : 0 ≤ n ∧ n ≤ 256
+    · simp only [hc, and_self, if_true]; exact execShift_lsr x n hc
+    · simp [hc] at h
+  · exact absurd rfl h
+
+theorem execSubMutez_eq (a b : Val) (h : Spec.subMutezV a b ≠ .err) : Impl.execSubMutez a b = Spec.subMutezV a b := by
+  unfold Spec.subMutezV at h ⊢
+  split at h
+  · rename_i x y
+    simp only [Impl.execSubMutez, numFromValue_eq]
+    by_cases hc : x < y
+    · simp [hc]
+    · simp only [hc, if_false] at h ⊢
+      cases hq : Spec.numOk .mutez (x - y) <;> simp_all
+  · exact absurd rfl h
+
 theorem step_SLICE (hr : Spec.step env .SLICE st ≠ .err) :
     Impl.step env .SLICE (stk pre st) = (Spec.step env .SLICE st).map' (stk pre) := by
   rcases st with _ | ⟨a, st⟩
@@ -362,12 +479,27 @@ theorem step_refines (env : Env) (i : Instr) (pre st : List Val) (hr : Spec.step
       · simp only [ht, if_true] at hr ⊢
         cases hc : Spec.compare a b <;> simp_all
       · simp [ht] at hr
-  case AND | OR | XOR =>
-    all_goals
-      rcases st with _ | ⟨a, _ | ⟨b, st⟩⟩
-      · simp [Spec.step] at hr
-      · cases a <;> simp [Spec.step] at hr
-      · cases a <;> cases b <;> simp_all [Impl.step, Spec.step]
+  case AND =>
+    exact step_binop env pre st .AND Spec.andV Impl.execAnd (fun _ _ _ => rfl) rfl (fun a => by cases a <;> rfl)
+      (fun _ => rfl) execAnd_eq hr
+  case OR =>
+    exact step_binop env pre st .OR Spec.orV Impl.execOr (fun _ _ _ => rfl) rfl (fun a => by cases a <;> rfl)
+      (fun _ => rfl) execOr_eq hr
+  case XOR =>
+    exact step_binop env pre st .XOR Spec.xorV Impl.execXor (fun _ _ _ => rfl) rfl (fun a => by cases a <;> rfl)
+      (fun _ => rfl) execXor_eq hr
+  case EDIV =>
+    exact step_binop env pre st .EDIV Spec.edivV Impl.execEdiv (fun _ _ _ => rfl) rfl (fun a => by cases a <;> rfl)
+      (fun _ => rfl) execEdiv_eq hr
+  case LSL =>
+    exact step_binop env pre st .LSL Spec.lslV (Impl.execShift (fun x n => x <<< n)) (fun _ _ _ => rfl) rfl (fun a => by cases a <;> rfl)
+      (fun _ => rfl) execLsl_eq hr
+  case LSR =>
+    exact step_binop env pre st .LSR Spec.lsrV (Impl.execShift (fun x n => x >>> n)) (fun _ _ _ => rfl) rfl (fun a => by cases a <;> rfl)
+      (fun _ => rfl) execLsr_eq hr
+  case SUB_MUTEZ =>
+    exact step_binop env pre st .SUB_MUTEZ Spec.subMutezV Impl.execSubMutez (fun _ _ _ => rfl) rfl (fun a => by cases a <;> rfl)
+      (fun _ => rfl) execSubMutez_eq hr
   case CONCAT =>
     rcases st with _ | ⟨a, st⟩
     · simp [Spec.step] at hr
